@@ -28,7 +28,8 @@ def gen_scenario(rng):
           "regs": [], "observers": [], "exec_delay_ms": rng.choice([0, 0, 0.3, 1, 2])}
     for _ in range(rng.choice([0, 1, 1, 2, 2, 3])):
         sc["regs"].append({"delay_ms": rng.choice([0, 0, 0.1, 0.5, 1, 2, 4]),
-                           "cb": rng.choice(["ok", "ok", "ok", "raises", "arity0", "arity1"])})
+                           "cb": rng.choice(["ok", "ok", "ok", "raises", "arity0", "arity1", "raises-base"]),
+                           "shape": rng.choice(["function", "function", "partial", "nameless"])})
     for _ in range(rng.choice([0, 1, 1, 2])):
         ops = []
         for _ in range(rng.randint(1, 4)):
@@ -44,6 +45,16 @@ def gen_scenario(rng):
 
 
 FALSY = [None, 0, False, "", []]
+
+
+class _Nameless(object):
+    """A callable object without a __name__."""
+
+    def __init__(self, fn):
+        self.fn = fn
+
+    def __call__(self, *args, **kwargs):
+        return self.fn(*args, **kwargs)
 
 
 class FutureRun(object):
@@ -96,6 +107,10 @@ class FutureRun(object):
             def cb(result, exception, extra):
                 check(result, exception, extra)
                 raise RuntimeError("callback %d fails" % i)
+        elif kind == "raises-base":
+            def cb(result, exception, extra):
+                check(result, exception, extra)
+                raise SystemExit("callback %d calls sys.exit()" % i)
         elif kind == "arity0":
             def cb():
                 h.ev("cb", reg=i, args_ok=False)
@@ -122,6 +137,12 @@ class FutureRun(object):
             if reg["delay_ms"]:
                 time.sleep(reg["delay_ms"] / 1000.0)
             cb = self.make_cb(i, reg["cb"])
+            shape = reg.get("shape", "function")
+            if shape == "partial":
+                import functools
+                cb = functools.partial(cb)
+            elif shape == "nameless":
+                cb = _Nameless(cb)
             c = h.ev("reg_call", reg=i, cb=reg["cb"])
             try:
                 fut.set_callback(cb, self.extras[i])
@@ -225,12 +246,15 @@ def check(events, sc):
     E = X = None
     regs = {}
     cbs = {}
+    base_cb = any(r["cb"] == "raises-base" for r in sc["regs"])
     for seq, kind, name, f in events:
         if kind == "body_end":
             E = seq
         elif kind == "exec_ret":
             X = seq
-            if f["out"].startswith("foreign-exc"):
+            # (a callback that calls sys.exit() may end the thread that runs it: what must hold is that the stored
+            # outcome and a pool worker's progress are unaffected)
+            if f["out"].startswith("foreign-exc") and not base_cb:
                 out.append(("execute-raised-foreign-exception", {"out": f["out"]}))
         elif kind == "task_done" and X is None:
             X = seq   # pool mode: upper bound of the return of execute
@@ -238,7 +262,7 @@ def check(events, sc):
             regs[f["reg"]] = {"call": seq, "ret": None, "cb": f["cb"]}
         elif kind == "reg_ret":
             regs[f["reg"]]["ret"] = seq
-            if f["out"] != "returned":
+            if f["out"] != "returned" and regs[f["reg"]]["cb"] != "raises-base":
                 out.append(("callback-exception-escaped-set_callback", {"reg": f["reg"], "out": f["out"]}))
         elif kind == "cb":
             cbs.setdefault(f["reg"], []).append((seq, f["args_ok"]))
@@ -247,7 +271,7 @@ def check(events, sc):
     # in pool mode X is only bounded: E < X_true < task_done
     for i, r in sorted(regs.items()):
         inv = cbs.get(i, [])
-        judged_cb = r["cb"] in ("ok", "raises")
+        judged_cb = r["cb"] in ("ok", "raises", "raises-base")
         if len(inv) > 1:
             out.append(("callback-invoked-twice", {"reg": i, "invocations": [s for s, _ in inv], "E": E, "X": X,
                                                     "reg_call": r["call"], "reg_ret": r["ret"]}))
